@@ -17,10 +17,14 @@ CHECKS = {
          "4/C05", TB + " Float-based writers bounded."),
  "C06": ("proof", "For every class and every symbolic cut position: the real read_entity body on the strict prefix raises BufferUnderflow (truncation clause), composed from the truncation clauses of all leaf readers and the array loop rule.",
          "4/C06", TB),
+ "C07": ("proof", "Interface discipline of every function under contract (all leaf readers/writers, the array closures, write_tagged_field, and write_entity/read_entity of all 1629 classes): the sink is used only through write(bytes), the source only through read(int), no probing of the stream's type; sequencing lemma over the class contracts for two (header, payload) messages back to back with arbitrary leading and trailing bytes, for every payload class.",
+         "4/C07", TB + " Assumed contract of IO[bytes] and asyncio.StreamWriter.write; a bounded native run over three stream kinds is a stand-in, not proof."),
  "C08": ("proof", "The three header-selection functions are executed symbolically (api key, version, flexibility symbolic) against the Kafka rule; ground: all payload classes carry the header the rule gives, request/response pairs agree, the index mappings are mutually inverse (exhaustive).",
          "4/C08", TB + " Ground obligations are discharged by evaluation."),
  "C09": ("proof", "kio.index lookups executed symbolically over arbitrary keys/names/versions with the real maps as data: exactly the entry or the documented error; ground: every index entry resolves to the class with its coordinates, every module on disk is indexed, keys map one-to-one.",
          "4/C09", TB + " pkgutil.resolve_name trusted."),
+ "C19": ("proof", "Frame (purity) obligations for every function under contract: no global/nonlocal, no store or mutating call on captured/global objects, temporaries fresh and closed on every path; an injected stream fault at every write/read propagates unchanged; independently built plans are equivalent closures (cache). The thread clause follows by non-interference under stated assumptions - no schedule is explored.",
+         "4/C19", TB + " functools.cache and CPython's atomicity of reads of immutable plans are assumed; one bounded native thread run is a stand-in, not proof."),
  "C10": ("proof", "General clause: for every class the real read_entity body on arbitrary bytes raises only SerialError/ValueError/OverflowError classes, never reads beyond the input (source model), every loop has a variant bounded by the unread bytes, and returned values lie in the writer's domain.",
          "4/C10", TB + " Wall-clock time is read as iteration count; memory inside the stream's own read(n) is outside the IO contract."),
  "C11": ("proof", "Every public reader/writer of kio.serial is verified body-by-body against its contract: writers emit exactly the Kafka spec encoding or raise with nothing written; readers satisfy match / null / truncation / general clauses; varint loops unrolled completely with exact integer semantics.",
